@@ -1566,7 +1566,62 @@ fn gen_position(rng: &mut Rng, cur: Option<&str>, old: Option<&str>) -> (u32, u3
     }
 }
 
+/// One history in six is typed on a keyboard that produces other blanks than U+0020 after the slashes of a comment
+/// (no-break space: Alt+Space on a Mac; ideographic space: a CJK input method): every text of the history - disk,
+/// didOpen, didChange - gets them. The draws of the history itself are untouched (its own PRNG stream decides this).
 pub fn gen_history(seed: u64, k: u64, max_events: usize) -> History {
+    let h = gen_history_plain(seed, k, max_events);
+    let coin = rng::derive(seed, "lspsim.blanks", k) % 12;
+    if coin >= 2 {
+        return h;
+    }
+    let blank = if coin == 0 { "\u{a0}" } else { "\u{3000}" };
+    let js = h.to_json().to_string();
+    let js = js.replace("/// ", &format!("///{}", blank)).replace("// ", &format!("//{}", blank));
+    let mut v: Value = match serde_json::from_str(&js) {
+        Ok(v) => v,
+        Err(_) => return h,
+    };
+    // ... and whoever wrote such a comment looks at it: after the first didOpen / didChange whose text has a documented
+    // label, the client hovers over that label (definition line, second character)
+    if let Some(evs) = v.get_mut("events").and_then(|e| e.as_array_mut()) {
+        let mut at = None;
+        for (i, e) in evs.iter().enumerate() {
+            let op = e["op"].as_str().unwrap_or("");
+            if op != "open" && op != "change" {
+                continue;
+            }
+            let (file, text) = (e["file"].as_str().unwrap_or(""), e["text"].as_str().unwrap_or(""));
+            let lines: Vec<&str> = text.split('\n').collect();
+            for (ln, l) in lines.iter().enumerate() {
+                if ln > 0 && lines[ln - 1].trim_start().starts_with("///") && !l.trim_start().starts_with("//") && l.trim().len() > 2 {
+                    at = Some((i, file.to_string(), ln));
+                    break;
+                }
+            }
+            if at.is_some() {
+                break;
+            }
+        }
+        if let Some((i, file, ln)) = at {
+            evs.insert(
+                i + 1,
+                json!({"op": "req", "kind": "textDocument/hover", "file": file, "line": ln, "col": 1, "extra": "", "pos_kind": "documented_label"}),
+            );
+        }
+    }
+    match History::from_json(&v) {
+        Some(h2) => h2,
+        None => {
+            if std::env::var("VERIF_DEBUG").is_ok() {
+                eprintln!("blanks: history {} does not survive the JSON round trip", k);
+            }
+            h
+        }
+    }
+}
+
+fn gen_history_plain(seed: u64, k: u64, max_events: usize) -> History {
     let mut rng = Rng::new(rng::derive(seed, "lspsim.history", k));
     let mut disk = BTreeMap::new();
     let mut model_disk: BTreeMap<String, Option<String>> = BTreeMap::new();
